@@ -41,6 +41,8 @@ cfg("MC_exec_ops.cfg", exec_consts(FieldAlpha="<- AlphaOps", Aliases='= {""}', M
 cfg("MC_exec_mut.cfg", exec_consts(FieldAlpha="<- AlphaMut", OpTypes='= {"mutation"}', Aliases='= {"", "z"}', MaxSel="= 4"), EXEC_INV)
 cfg("MC_exec_merge.cfg", exec_consts(FieldAlpha="<- AlphaMerge", Aliases='= {""}', Conds='= {"A", "B"}', MaxSel="= 6", MaxDepth="= 4", MaxOverlay="= 0"), EXEC_INV)
 cfg("MC_exec_merge2.cfg", exec_consts(FieldAlpha="<- AlphaMerge2", Aliases='= {""}', Conds='= {"T"}', MaxFrags="= 1", MaxSel="= 5", MaxDepth="= 3", MaxOverlay="= 0"), EXEC_INV)
+cfg("MC_exec_mutargs.cfg", exec_consts(FieldAlpha="<- AlphaMutArgs", OpTypes='= {"mutation"}', Aliases='= {"", "z"}', ArgOpts="<- ArgOptsFew", MaxSel="= 4", MaxOverlay="= 0"), EXEC_INV)
+cfg("MC_exec_fragvar.cfg", exec_consts(FieldAlpha="<- AlphaFragVar", Aliases='= {""}', Conds='= {"T"}', MaxFrags="= 2", DirOpts="<- DirsVarOnly", MaxSel="= 4", MaxOverlay="= 0"), EXEC_INV)
 # thorough
 cfg("MC_exec_basic5.cfg", exec_consts(MaxSel="= 5", MaxOverlay="= 0"), EXEC_INV)
 cfg("MC_exec_abstract5.cfg", exec_consts(FieldAlpha="<- AlphaAbstract", Aliases='= {""}', Conds='= {"", "A", "B", "P", "C"}', MaxSel="= 5", MaxOverlay="= 0"), EXEC_INV)
@@ -83,6 +85,8 @@ cfg("MC_sched_f2_cc.cfg", sched_consts(FieldAlpha="<- AlphaSchedF2", Aliases='= 
 cfg("MC_sched_f2_mc.cfg", sched_consts(FieldAlpha="<- AlphaSchedF2", Aliases='= {""}', MaxSel="= 3", WithFaults="= TRUE", MaxFaults="= 2", **FLAGSETS["mc"]), SCHED_INV, spec="SpecS")
 for fk in ("cc", "ss", "mc"):
     cfg("MC_sched_ma_%s.cfg" % fk, sched_consts(FieldAlpha="<- AlphaSchedMA", ArgOpts="<- ArgOptsMA", OpTypes='= {"mutation"}', Aliases='= {""}', MaxSel="= 3", WithFaults="= FALSE", **FLAGSETS[fk]), SCHED_INV, spec="SpecS")
+for fk in ("cc", "ms"):
+    cfg("MC_sched_a_%s.cfg" % fk, sched_consts(FieldAlpha="<- AlphaSchedA", ArgOpts="<- ArgOptsFew", Aliases='= {"", "z"}', MaxSel="= 4", WithFaults="= FALSE", **FLAGSETS[fk]), SCHED_INV, spec="SpecS")
 cfg("MC_sched_live.cfg", sched_consts(FieldAlpha="<- AlphaSchedF", Aliases='= {""}', MaxSel="= 3", WithFaults="= TRUE", SeqFields="<- SomeFieldNames", LConc="= FALSE"), SCHED_R1, spec="FairSpecS", props=["Termination"], extra="VIEW NoHist")
 
 # ---- C15: several requests in flight ------------------------------------------------------
